@@ -711,6 +711,75 @@ func mapsAndNumbers(r *lib.Report, evals, inputs *int64) {
 			}
 		}
 	}
+	// Range on the other numeric instantiations: fractional bounds and hops (float64, float32), narrow
+	// integers near their limits (int8, uint8): the values lower, lower+hop, ... below higher
+	fl := []float64{-1.5, 0, 0.5, 1, 2.5, 3}
+	for _, lo := range fl {
+		for _, hi := range fl {
+			for _, hop := range []float64{-1, 0, 0.25, 0.5, 1, 1.5, 99} {
+				*evals += 2
+				*inputs++
+				var got64 []float64
+				var got32 []float32
+				p := lib.Catch(func() {
+					if hop == 99 {
+						got64, got32 = fpgo.Range(lo, hi), fpgo.Range(float32(lo), float32(hi))
+					} else {
+						got64, got32 = fpgo.Range(lo, hi, hop), fpgo.Range(float32(lo), float32(hi), float32(hop))
+					}
+				})
+				if p != "" {
+					bad("Range", "panic", "Range[float](%v, %v, %v): %s", lo, hi, hop, p)
+					continue
+				}
+				h := hop
+				if hop == 99 {
+					h = 1
+				}
+				var w64 []float64
+				var w32 []float32
+				if h > 0 {
+					for v := lo; v < hi; v += h {
+						w64 = append(w64, v)
+					}
+					for v := float32(lo); v < float32(hi); v += float32(h) {
+						w32 = append(w32, v)
+					}
+				}
+				if !seqEq(got64, w64) || !seqEq(got32, w32) {
+					bad("Range", "wrong-result|float", "Range[float64/float32](%v, %v, hop %v) = %v / %v, want %v / %v", lo, hi, hop, got64, got32, w64, w32)
+				}
+			}
+		}
+	}
+	// (only spans whose last step stays inside the type: what Range does when lower+k*hop overflows T is not defined)
+	for _, c := range [][3]int{{100, 127, 9}, {-128, -120, 3}, {0, 100, 25}, {5, 5, 1}, {-3, 3, 2}} {
+		*evals += 2
+		*inputs++
+		lo, hi, hop := c[0], c[1], c[2]
+		var g8 []int8
+		var gu []uint8
+		p := lib.Catch(func() {
+			g8 = fpgo.Range(int8(lo), int8(hi), int8(hop))
+			if lo >= 0 {
+				gu = fpgo.Range(uint8(lo), uint8(hi), uint8(hop))
+			}
+		})
+		var w8 []int8
+		var wu []uint8
+		for v := lo; v < hi; v += hop {
+			w8 = append(w8, int8(v))
+			if lo >= 0 {
+				wu = append(wu, uint8(v))
+			}
+			if v+hop > 127 {
+				break // the next value does not exist in int8: not demanded beyond
+			}
+		}
+		if p != "" || !seqEq(g8, w8) || (lo >= 0 && !seqEq(gu, wu)) {
+			bad("Range", "wrong-result|narrow-int", "Range[int8/uint8](%d, %d, %d) = %v / %v %s, want %v / %v", lo, hi, hop, g8, gu, p, w8, wu)
+		}
+	}
 }
 
 // poison: every callback-taking helper, over a few lists, with a callback that panics at its k-th call.
@@ -800,6 +869,14 @@ func main() {
 		(&suite[int]{r: r, tname: "int", sym: func(i int) int { return i }, sentinel: 99, evals: &evals, inputs: ip, maxLen: maxLen, long: true}).run()
 		(&suite[string]{r: r, tname: "string", sym: func(i int) string { return []string{"a", "b", ""}[i] }, sentinel: "SENTINEL", evals: &evals, inputs: ip, maxLen: maxLen - 1}).run()
 		(&suite[rec]{r: r, tname: "struct", sym: func(i int) rec { return rec{i, strings.Repeat("x", i)} }, sentinel: rec{99, "S"}, evals: &evals, inputs: ip, maxLen: maxLen - 1}).run()
+		if pass == 0 {
+			// other element kinds: pointers (two distinct ones to equal values, and nil), floats (-0 and an infinity),
+			// structs with a pointer field: elements are compared with ==, never by content, text or zero-ness
+			sentP := new(int)
+			(&suite[*int]{r: r, tname: "*int", sym: func(i int) *int { return []*int{lib.P1, lib.P2, nil}[i] }, sentinel: sentP, evals: &evals, inputs: ip, maxLen: maxLen - 1}).run()
+			(&suite[float64]{r: r, tname: "float64", sym: func(i int) float64 { return []float64{math.Copysign(0, -1), 1.5, math.Inf(1)}[i] }, sentinel: 99.5, evals: &evals, inputs: ip, maxLen: maxLen - 1}).run()
+			(&suite[lib.Tagged]{r: r, tname: "struct-with-pointer", sym: func(i int) lib.Tagged { return []lib.Tagged{{N: 1, P: lib.P1}, {N: 1, P: lib.P2}, {}}[i] }, sentinel: lib.Tagged{N: 99}, evals: &evals, inputs: ip, maxLen: maxLen - 1}).run()
+		}
 		mapsAndNumbers(r, &evals, ip)
 	}
 	r.Cov["states"] = inputs
